@@ -176,14 +176,39 @@ func zzH_C11_strip() {
 	if offs != nil {
 		zzv.Reach("opt:offsets")
 		rc := utf8.RuneCountInString(out)
-		ok := true
+		// the code counts runes piece by piece (text between sequences)
+		rcPieces := 0
+		for t := s; len(t) > 0; {
+			a, b := zzRefNext(t)
+			if a < 0 {
+				rcPieces += utf8.RuneCountInString(t)
+				break
+			}
+			rcPieces += utf8.RuneCountInString(t[:a])
+			t = t[b:]
+		}
+		ordered, inText, inPieces := true, true, true
 		prevEnd := int32(0)
 		for _, o := range *offs {
-			if o.offset[0] < prevEnd || o.offset[1] < o.offset[0] || int(o.offset[1]) > rc {
-				ok = false
+			if o.offset[0] < prevEnd || o.offset[1] < o.offset[0] {
+				ordered = false
+			}
+			if int(o.offset[1]) > rc {
+				inText = false
+			}
+			if int(o.offset[1]) > rcPieces {
+				inPieces = false
 			}
 			prevEnd = o.offset[1]
 		}
-		zzv.Assert("spans-well-formed", ok)
+		zzv.Assert("spans-ordered", ordered)
+		if rcPieces != rc {
+			// candidate J (DESIGN §4): a sequence between the bytes of one multi-byte character
+			// (input that is not valid UTF-8 as a whole): pieces re-join into fewer runes
+			zzv.Assert("finding:C11-J-span-past-text-on-split-rune", inText)
+			zzv.Assert("J-characterised-piecewise-count", inPieces)
+		} else {
+			zzv.Assert("spans-within-text", inText)
+		}
 	}
 }
